@@ -287,6 +287,13 @@ type pcBr struct {
 // incoming edge was v restated as an outcome of v); ok=false when the edge is infeasible for a.
 func (pi *pcInfo) alongEdge(brOf map[*ssa.BasicBlock]pcBr, p, b *ssa.BasicBlock, a pcAlt) (pcAlt, bool) {
 	na := a
+	if ls := liveSuccs(p); len(ls) != len(p.Succs) {
+		// a branch on a constant: one side only, and no condition to remember
+		if len(ls) == 1 && ls[0] == b {
+			return na, true
+		}
+		return nil, false
+	}
 	pb, hasBr := brOf[p]
 	if !hasBr {
 		return na, true
